@@ -498,6 +498,15 @@ def main():
                 for i, kind in compare(lines, impl, mo):
                     counters[{"impl_oracle": "impl_vs_oracle", "model_oracle": "model_vs_oracle", "impl_model": "impl_vs_model"}[kind]] += 1
                     failing.append((lines[i], impl[i], mo[i][0], mo[i][1], kind, profile))
+                hist = {}
+                for r in impl:
+                    k = (r or "?").split(" ")[0]
+                    if k == "panic":
+                        k = " ".join((r or "").split(" ")[:2])[:40]
+                    elif k not in ("ok", "some", "none", "err", "unsupported", "timeout", "skipped", "tape-exhausted") and not k.startswith("fault"):
+                        k = "value"
+                    hist[k] = hist.get(k, 0) + 1
+                stats["outcomes_" + profile] = hist
                 if not samples:
                     step = max(1, len(lines) // 6)
                     for i in range(0, len(lines), step):
